@@ -1,6 +1,6 @@
 \* Lru with its history variables (thorough tier): Keys {k1..k4}, Vals {v1,v2},
 \* capacity 1..3, histories of any length (finite state space).
-\* Measured: see notes/C15.md.
+\* Measured: 71807 distinct states, 861687 generated, 8-22 s.
 SPECIFICATION LruSpec
 CONSTANTS
   Keys <- K4
